@@ -1,6 +1,6 @@
 #!/bin/bash
 # usage: sweep.sh <tier> <seed>...   runs every registered check once per seed and prints one line each
-cd /verif
+cd "$(dirname "$(readlink -f "$0")")/.."
 tier=$1; shift
 for seed in "$@"; do
   for id in $(python3 -c "import json;print(' '.join(c['property_id'] for c in json.load(open('MANIFEST.json'))['checks']))"); do
